@@ -69,13 +69,18 @@ static std::string u128s(Gudhi::numbers::uint128_t x) {
 #endif
 static std::string u128s(std::uint64_t x) { return u128s((unsigned __int128)x); }
 
-static double val_of_key(long long k, int sq) { return sq ? std::sqrt((double)k) : (double)k; }
+// unit of length of the current R line: every dissimilarity (and coordinate, and threshold) is multiplied by 2^g_unit before it
+// reaches the library and every reported value divided by it (exact; the property is invariant under a change of unit)
+static int g_unit = 0;
+static double val_of_key(long long k, int sq) { return std::ldexp(sq ? std::sqrt((double)k) : (double)k, g_unit); }
 // back from a value to its key; "BAD" if the value is not the image of an integer key
 static std::string key_of_val(double v, int sq) {
   if (v == INF) return "inf";
-  if (!(v == v) || v < 0 || v > 1e15) { char b[64]; snprintf(b, sizeof b, "BAD(%a)", v); return b; }
+  const double v0 = v;
+  v = std::ldexp(v, -g_unit);
+  if (!(v == v) || v < 0 || v > 1e15) { char b[64]; snprintf(b, sizeof b, "BAD(%a)", v0); return b; }
   long long k = sq ? std::llround(v * v) : std::llround(v);
-  if (val_of_key(k, sq) != v) { char b[64]; snprintf(b, sizeof b, "BAD(%a)", v); return b; }
+  if (val_of_key(k, sq) != v0) { char b[64]; snprintf(b, sizeof b, "BAD(%a)", v); return b; }
   return std::to_string(k);
 }
 
@@ -140,6 +145,8 @@ static std::vector<double> vals(const std::vector<long long>& keys, int sq) {
 static std::string do_run(std::istringstream& in) {
   std::string form, thr_s; int n, dim_max, sq; long long modulus_ll;
   in >> form >> n >> dim_max >> thr_s >> modulus_ll >> sq;
+  g_unit = (sq / 2 == 1) ? -40 : (sq / 2 == 2) ? 30 : 0;      // sq field = (values are square roots of the keys) + 2 * (unit: 0 -> 1, 1 -> 2^-40, 2 -> 2^30)
+  sq %= 2;
   unsigned modulus = (unsigned)modulus_ll;
   std::vector<long long> data; long long x;
   while (in >> x) data.push_back(x);
@@ -177,7 +184,7 @@ static std::string do_run(std::istringstream& in) {
       int m = (int)data[0];
       if (data.size() != 1 + (size_t)n * m) return "badinput";
       std::vector<std::vector<double>> pts(n, std::vector<double>(m));
-      for (int i = 0; i < n; ++i) for (int j = 0; j < m; ++j) pts[i][j] = (double)data[1 + (size_t)i * m + j];
+      for (int i = 0; i < n; ++i) for (int j = 0; j < m; ++j) pts[i][j] = std::ldexp((double)data[1 + (size_t)i * m + j], g_unit);
       return run_auto(Eucl(std::move(pts)), dim_max, thr, modulus, 1);
     }
     return "badform";
@@ -188,6 +195,7 @@ static std::string do_run(std::istringstream& in) {
 static std::string do_second(std::istringstream& in) {
   std::string thr_s; int n, dim_max, sq; long long modulus;
   in >> n >> dim_max >> thr_s >> modulus >> sq;
+  g_unit = 0;
   std::vector<long long> data; long long x;
   while (in >> x) data.push_back(x);
   if (data.size() != (size_t)n * (n - 1) / 2) return "badinput";
